@@ -228,6 +228,12 @@ class Violin(object):
                 continue
 
             sen = se[notnull]
+            if sen.max() - sen.min() < 1e-10:
+                # constant data, no density profile
+                kde_x.loc[:, cn] = np.nan
+                kde_y.loc[:, cn] = np.nan
+                continue
+
             values = sen.values
             x0, x1 = sen.min(), sen.max()
 
